@@ -66,6 +66,11 @@ func run(c *hlib.Ctx) {
 		caseThreeMF(c, i)
 		caseOBJFile(c, i)
 	}
+	// STL files from readers that deliver the bytes in pieces (last, so that the random stream of the
+	// kinds above is unchanged)
+	for i := 0; i < n/2+1; i++ {
+		caseSTLChunked(c, i)
+	}
 }
 
 // ---------------------------------------------------------------------------
@@ -269,8 +274,9 @@ func casePlyStream(c *hlib.Ctx, i int) {
 		}
 	}
 	lawCheck(c, tb)
+	dl := pickDelivery(c, "plys")
 	var op strings.Builder
-	fmt.Fprintf(&op, "c15 plys %s %d", codec.ShowHeader(h), len(rows))
+	fmt.Fprintf(&op, "c15 plys %s %s %d", dl.tag(), codec.ShowHeader(h), len(rows))
 	for _, row := range rows {
 		fmt.Fprintf(&op, " %s", codec.ShowRow(row))
 	}
@@ -290,14 +296,14 @@ func casePlyStream(c *hlib.Ctx, i int) {
 			}
 		}
 		data := buf.Bytes()
-		return codec.HexBytes(data) + " 1 | " + readPlyAll(data)
+		return codec.HexBytes(data) + " 1 | " + readPlyAll(dl.reader(data))
 	})
 	c.Emit(op.String(), out)
 }
 
 // readPlyAll: NewPLYReader + Read until an error; io.EOF (errors.Is) is the clean end.
-func readPlyAll(data []byte) string {
-	rd, err := ff.NewPLYReader(bytes.NewReader(data))
+func readPlyAll(src io.Reader) string {
+	rd, err := ff.NewPLYReader(src)
 	if err != nil {
 		return "openerr"
 	}
@@ -344,8 +350,9 @@ func colorOf(p model3d.Coord3D) [3]uint8 {
 func casePlyMesh(c *hlib.Ctx, i int) {
 	tris := randMesh(c, i, false)
 	tb := codec.NewTables()
+	dl := pickDelivery(c, "plym")
 	var op strings.Builder
-	fmt.Fprintf(&op, "c15 plym %d", len(tris))
+	fmt.Fprintf(&op, "c15 plym %s %d", dl.tag(), len(tris))
 	type key [3]uint64
 	seen := map[key]bool{}
 	var cols []string
@@ -371,7 +378,7 @@ func casePlyMesh(c *hlib.Ctx, i int) {
 	fmt.Fprintf(&op, " %s", tb.String())
 	out := guardT(func() string {
 		data := model3d.EncodePLY(tris, colorOf)
-		back, colors, err := model3d.ReadColorPLY(bytes.NewReader(data))
+		back, colors, err := model3d.ReadColorPLY(dl.reader(data))
 		if err != nil {
 			return codec.HexBytes(data) + " error"
 		}
@@ -469,9 +476,10 @@ func caseOFF(c *hlib.Ctx, i int) {
 		nf = 0
 	}
 	tb := codec.NewTables()
+	dl := pickDelivery(c, "off")
 	var op strings.Builder
 	var text strings.Builder
-	fmt.Fprintf(&op, "c15 off %d", nv)
+	fmt.Fprintf(&op, "c15 off %s %d", dl.tag(), nv)
 	var faces [][]int
 	verts := make([][3]float64, nv)
 	for j := range verts {
@@ -507,7 +515,7 @@ func caseOFF(c *hlib.Ctx, i int) {
 	fmt.Fprintf(&op, " %s", tb.String())
 	data := []byte(text.String())
 	out := guardT(func() string {
-		rd, err := ff.NewOFFReader(bytes.NewReader(data))
+		rd, err := ff.NewOFFReader(dl.reader(data))
 		if err != nil {
 			return codec.HexBytes(data) + " error"
 		}
@@ -536,7 +544,7 @@ func caseOFF(c *hlib.Ctx, i int) {
 		}
 	}
 	if allTri {
-		tris, err := model3d.ReadOFF(bytes.NewReader(data))
+		tris, err := model3d.ReadOFF(dl.reader(data))
 		ok := err == nil && len(tris) == len(faces)
 		if ok {
 			for j, f := range faces {
@@ -548,7 +556,7 @@ func caseOFF(c *hlib.Ctx, i int) {
 			}
 		}
 		if !ok {
-			c.PropFail("c15:ReadOFF/triangle-file", codec.HexBytes(data))
+			c.PropFail("c15:ReadOFF/triangle-file", "delivery "+dl.tag()+" file "+codec.HexBytes(data))
 		}
 		c.Stat("c15.off.triangle_only_files", 1)
 	}
